@@ -233,15 +233,55 @@ def h_range(size: int, head: bool, pi: int, free: str):
 # ----------------------------------------------------------------------------------------------
 INM = [None, '"v1"', '"zz"', "*", 'W/"v1"', '"zz", "v1"', "garbage"]
 INM_MATCH = [False, True, False, True, True, True, False]
+# If-Modified-Since pool.  MTIME is Thu, 02 Jan 2020 03:04:05 GMT.  Entries 6.. carry a NON-ZERO numeric zone:
+# the decision must be taken on the absolute instant (304 iff mtime <= instant), which for four of them is the
+# opposite of what the same wall clock read as GMT would give.
 IMS = [None, "Wed, 01 Jan 2020 00:00:00 GMT", "Thu, 02 Jan 2020 03:04:05 GMT",
-       "Fri, 03 Jan 2020 00:00:00 GMT", "garbage", "Thu, 02 Jan 2020 03:04:04 GMT"]
-IMS_NOTMOD = [False, False, True, True, False, False]
+       "Fri, 03 Jan 2020 00:00:00 GMT", "garbage", "Thu, 02 Jan 2020 03:04:04 GMT",
+       "Thu, 02 Jan 2020 03:04:05 +0200",     # 01:04:05Z  earlier  (as GMT: equal   -> would be 304)
+       "Thu, 02 Jan 2020 05:00:00 +0200",     # 03:00:00Z  earlier  (as GMT: later   -> would be 304)
+       "Thu, 02 Jan 2020 01:00:00 -0500",     # 06:00:00Z  later    (as GMT: earlier -> would be 200)
+       "Wed, 01 Jan 2020 22:04:05 -0500",     # 03:04:05Z  equal    (as GMT: earlier -> would be 200)
+       "Thu, 02 Jan 2020 05:04:05 +0200",     # 03:04:05Z  equal    (as GMT: later, same verdict)
+       "Thu, 02 Jan 2020 03:04:05 -0500"]     # 08:04:05Z  later    (as GMT: equal, same verdict)
+IMS_NOTMOD = [False, False, True, True, False, False,
+              False, False, True, True, True, True]
+IMS_ZONE_DISAGREES = (6, 7, 8, 9)
+
+
+def _selfcheck_ims():
+    """The hand-written verdicts equal 'mtime <= true instant' under email.utils.parsedate_to_datetime."""
+    import email.utils
+    for i, v in enumerate(IMS):
+        if v is None or v == "garbage":
+            continue
+        d = email.utils.parsedate_to_datetime(v)
+        if d.tzinfo is None:
+            d = d.replace(tzinfo=datetime.timezone.utc)
+        assert (d >= MTIME) == IMS_NOTMOD[i], (i, v)
+        as_gmt = d.replace(tzinfo=datetime.timezone.utc) if i < 6 else \
+            datetime.datetime(d.year, d.month, d.day, d.hour, d.minute, d.second, tzinfo=datetime.timezone.utc)
+        assert ((as_gmt >= MTIME) != IMS_NOTMOD[i]) == (i in IMS_ZONE_DISAGREES), (i, v)
+
+
+_selfcheck_ims()
 RNG = [None, "bytes=1-", "bytes=-1", "bytes=0-0", "bytes=9-", "bytes=x"]
 
 
+def _pick(pool, i):
+    """pool[i] through one branch per index: the chosen header value is a concrete str on each path."""
+    for k in range(len(pool)):
+        if i == k:
+            return k
+    raise IndexError(i)
+
+
 def pre_cond(size: int, head: bool, inm: int, ims: int, rng: int) -> bool:
-    return (0 <= size <= P.S and 0 <= inm < len(INM) and 0 <= ims < len(IMS) and 0 <= rng < len(RNG)
-            and in_shard(inm))
+    if not (0 <= size <= P.S and 0 <= inm < len(INM) and 0 <= ims < len(IMS) and 0 <= rng < len(RNG)):
+        return False
+    if INM[inm] is not None and ims >= 3:
+        return False      # If-None-Match present: If-Modified-Since is ignored; 3 values suffice to show that
+    return in_shard(inm)
 
 
 @harness(
@@ -249,16 +289,19 @@ def pre_cond(size: int, head: bool, inm: int, ims: int, rng: int) -> bool:
     quick=dict(S=3, timeout=150, reach_timeout=60),
     thorough=dict(S=8, timeout=900),
     nshards=dict(quick=7, thorough=7),
-    reach=["c304_etag", "c304_ims", "c200_after_cond", "c206_after_cond"],
+    reach=["c304_etag", "c304_ims", "c200_after_cond", "c206_after_cond", "c304_zone_offset", "c200_zone_offset"],
     units=["web.StaticFileHandler.get", "web.StaticFileHandler.should_return_304",
            "web.RequestHandler.check_etag_header", "web.RequestHandler.finish",
            "web.RequestHandler._clear_representation_headers"],
     stubs=["as h_range; If-None-Match / If-Modified-Since / Range from concrete pools chosen by symbolic "
-           "index, file size symbolic"],
+           "index, file size symbolic; If-Modified-Since pool = absent, GMT earlier/equal/later/one second earlier, "
+           "garbage, and six values with zone +0200 / -0500 (four of them on the other side of the mtime than the same "
+           "wall clock read as GMT); oracle = 304 iff mtime <= the absolute instant (email.utils.parsedate_to_datetime)"],
     outside=["If-None-Match / If-Modified-Since values outside the pools (their parsers are email.utils / a regex; "
              "not this property's subject)"],
 )
 def h_cond(size: int, head: bool, inm: int, ims: int, rng: int):
+    inm, ims, rng = _pick(INM, inm), _pick(IMS, ims), _pick(RNG, rng)
     headers = []
     if INM[inm] is not None:
         headers.append(("If-None-Match", INM[inm]))
@@ -273,11 +316,16 @@ def h_cond(size: int, head: bool, inm: int, ims: int, rng: int):
             reached("c304_etag")
         else:
             reached("c304_ims")
-        assert conn.status == 304, "expected 304, got %r" % (conn.status,)
+            if ims in IMS_ZONE_DISAGREES:
+                reached("c304_zone_offset")
+        assert conn.status == 304, "expected 304 (mtime <= the instant named by If-Modified-Since=%r), got %r" % (
+            IMS[ims], conn.status)
         assert conn.body() == b"", "304 must not carry a body"
         assert conn.header("Content-Range") is None and conn.header("Content-Type") is None
         assert conn.header("Etag") == ETAG
         return
+    if INM[inm] is None and ims in IMS_ZONE_DISAGREES:
+        reached("c200_zone_offset")
     assert conn.status != 304, "unexpected 304 for If-None-Match=%r If-Modified-Since=%r" % (INM[inm], IMS[ims])
     if len(headers) > (1 if RNG[rng] is not None else 0):
         if conn.status == 200:
